@@ -166,6 +166,7 @@ void viol(const char *prop, const char *key, const char *fmt, ...)
 }
 
 /* ================================================================ memory */
+const char *CANARY_PROP;
 struct blk { uint8_t *p; size_t n; };
 static struct blk *blks; static size_t nblk, capblk;
 #define CANARY 16
@@ -193,6 +194,7 @@ void canary_check(const char *where)
                 for (size_t i = 0; i < CANARY; i++)
                         if (blks[b].p[blks[b].n + i] != (uint8_t)(0xC5 ^ (i * 7))) {
                                 viol("C03", "canary", "byte %zu behind a %zu-byte block was overwritten (%s)", i, blks[b].n, where);
+                                if (CANARY_PROP) viol(CANARY_PROP, "byte-beyond-block-modified", "byte %zu behind a %zu-byte block (variable / buffer) was overwritten (%s)", i, blks[b].n, where);
                                 blks[b].p[blks[b].n + i] = (uint8_t)(0xC5 ^ (i * 7));
                                 return;
                         }
@@ -242,6 +244,7 @@ void w_buffers(size_t bufsz, bool shared, size_t ubufsz)
         W.bufA = W.buf;
         W.bufU = shared ? W.buf + (bufsz >> 1) : W.ubuf;
 }
+static prng_t scribble;
 static void fill(void *p, size_t n, int mode)
 {
         if (mode == 0) memset(p, 0, n);
@@ -257,6 +260,7 @@ void w_reinit(int fillmode)
                 if (W.ubuf && W.ubufsz) fill(W.ubuf, W.ubufsz, fillmode);
         }
         PHASE = 0;
+        scribble.s = 88172645463325252ULL;          /* the garbage handed back on refused reads is reproducible per parser instance */
         cat_init(W.at, W.desc, &IO, W.use_mutex ? &MUTEX : NULL);
 }
 void w_init(int fillmode)
@@ -317,7 +321,6 @@ bool READ_GATE = true; int PHASE;
 long N_READ_OK, N_READ_NO, N_WRITE_OK, N_WRITE_NO;
 void (*ON_READ)(size_t, uint8_t); void (*ON_READ_REFUSED)(void); void (*ON_WRITE)(bool, char, bool);
 void (*ON_UNIT)(bool, bool, const char *, size_t, bool, bool); void (*ON_PHASE)(int);
-static prng_t scribble = { 88172645463325252ULL };
 
 void sch_eager(struct sched *s) { memset(s, 0, sizeof *s); s->mode = SCH_EAGER; }
 void sch_bern(struct sched *s, unsigned pct, uint64_t seed) { memset(s, 0, sizeof *s); s->mode = SCH_BERNOULLI; s->pct = pct; pr_seed(&s->pr, seed, 77); }
